@@ -2,6 +2,7 @@ package ref
 
 import (
 	"fmt"
+	"regexp"
 	"strings"
 
 	schema "github.com/jsightapi/jsight-schema-core"
@@ -34,7 +35,7 @@ func CompareAST(n *gen.Node, a schema.ASTNode, path string) string {
 			return fmt.Sprintf("ast-value: %s: Value %q, the literal %s decodes to %q", path, a.Value, n.Lit, want)
 		}
 	case gen.KRef:
-		if want := strings.Join(n.Refs, " | "); a.Value != want {
+		if want := strings.Join(n.Refs, " | "); pipeBlanks.ReplaceAllString(a.Value, " | ") != want {
 			return fmt.Sprintf("ast-value: %s: Value %q, the source says %q", path, a.Value, want)
 		}
 	default:
@@ -71,6 +72,8 @@ func CompareAST(n *gen.Node, a schema.ASTNode, path string) string {
 	}
 	return ""
 }
+
+var pipeBlanks = regexp.MustCompile(`[ \t]*\|[ \t]*`)
 
 type namedRule struct {
 	name string
@@ -148,10 +151,14 @@ func compareRV(want gen.RV, got schema.RuleASTNode, path string) string {
 		if got.TokenType != schema.TokenTypeNumber {
 			return fmt.Sprintf("ast-rules: %s: TokenType %q for the number %s", path, got.TokenType, lit)
 		}
-		a, ok1 := ParseDec(lit)
-		b, ok2 := ParseDec(got.Value)
-		if !ok1 || !ok2 || !JSONNumberRE.MatchString(got.Value) || a.Cmp(b) != 0 {
-			return fmt.Sprintf("ast-rules: %s: Value %q, the source says %s", path, got.Value, lit)
+		// "same values": the number as written (2.50 stays 2.50); a differently spelled but equal number is
+		// tolerated only for the unsigned-integer rules, whose spelling has no freedom anyway
+		if got.Value != lit {
+			a, ok1 := ParseDec(lit)
+			b, ok2 := ParseDec(got.Value)
+			if !ok1 || !ok2 || !JSONNumberRE.MatchString(got.Value) || a.Cmp(b) != 0 || strings.ContainsAny(lit, ".eE-") {
+				return fmt.Sprintf("ast-rules: %s: Value %q, the source says %s", path, got.Value, lit)
+			}
 		}
 	case gen.KBool:
 		if got.TokenType != schema.TokenTypeBoolean || got.Value != lit {
